@@ -103,8 +103,9 @@ Definition lbranch (c : cfg) (s : state) (l : label) : list N :=
       | Some (incl, m) =>
           match alook m j with
           | Some x => if oname_eqb (Some x) (s_notif s j) then [10]
-                      else if negb incl && (j =? c_own c) then [11]
-                      else match s_dl s j with Some _ => [12] | None => [13] end
+                      else if negb incl && (j =? c_own c) && negb (notif_ignored s j) then [11]
+                      else (if negb incl && (j =? c_own c) then [14] else [])
+                           ++ match s_dl s j with Some _ => [12] | None => [13] end
           | None => []
           end
       | None => []
@@ -132,7 +133,7 @@ Definition lbranch (c : cfg) (s : state) (l : label) : list N :=
   | LDelete _ => [37]
   end.
 Definition rbranches_all : list N :=
-  [1;2;3;4;5;6;7;10;11;12;13;20;21;22;23;24;25;26;27;28;29;30;31;32;33;34;35;36;37;38;39;40;41].
+  [1;2;3;4;5;6;7;10;11;12;13;14;20;21;22;23;24;25;26;27;28;29;30;31;32;33;34;35;36;37;38;39;40;41].
 
 (* ---------- candidates ---------- *)
 
